@@ -30,7 +30,7 @@ func runVisitorStateless(p *Prog, r *Report) {
 				return true
 			}
 			f := calleeOf(info, call)
-			if f == nil || f.Name() != "VisitAll" || len(call.Args) != 2 {
+			if f == nil || fname(f) != "VisitAll" || len(call.Args) != 2 {
 				return true
 			}
 			lit, ok := ast.Unparen(call.Args[1]).(*ast.FuncLit)
@@ -143,7 +143,7 @@ func runVisitorStateless(p *Prog, r *Report) {
 					}
 					cf := calleeOf(info, c)
 					sel, ok2 := ast.Unparen(c.Fun).(*ast.SelectorExpr)
-					if cf == nil || cf.Name() != "ContainsPos" || !ok2 {
+					if cf == nil || fname(cf) != "ContainsPos" || !ok2 {
 						return
 					}
 					recv := ast.Unparen(sel.X)
